@@ -128,11 +128,15 @@ def _aux(detector, code, total):
         pass
 
 
-def encs(detector, ident=0, slots="", a=0.0, b=0.0, c=0.0, d=0.0, sleep_scale=0.0, sleep_mult=1, slow_sum=None):
+def encs(detector, ident=0, slots="", a=0.0, b=0.0, c=0.0, d=0.0, sleep_scale=0.0, sleep_mult=1, slow_sum=None,
+         trace=-1):
     """One of SEVERAL probe instances in a pipeline (parameters with the same short name live in different
     model instances).  `slots` = "a:0,c:2": the value RECEIVED for argument `a` is written (as the injective
     code of `encode([value])`) into pixel[0, 0], the one for `c` into pixel[0, 2]; the other columns are left
-    as they are.  signal[0, slot] = how many runs had executed THIS instance on the detector object before."""
+    as they are.  signal[0, slot] = how many runs had executed THIS instance on the detector object before.
+    `trace` >= 0: column `trace` of pixel is the EXECUTION TRACE of the run: every instance that executes (whether it
+    owns a slot or not) appends the base-16 digit ident+1, so the column tells which model instances ran in this run
+    and in which order -- in any worker process (a model that is switched off must not show up)."""
     _count()
     got = dict(a=a, b=b, c=c, d=d)
     geo = detector.geometry
@@ -161,6 +165,8 @@ def encs(detector, ident=0, slots="", a=0.0, b=0.0, c=0.0, d=0.0, sleep_scale=0.
         total += t
         pix[:, int(slot)] = float(code)
         sig[:, int(slot)] = float(mem)
+    if int(trace) >= 0:
+        pix[:, int(trace)] = pix[:, int(trace)] * 16.0 + float(int(ident) % 13 + 1)
     detector.pixel.array = pix
     detector.signal.array = sig
     try:
